@@ -1274,6 +1274,14 @@ Proof.
   repeat (destruct H as [E|H]; [inversion E; subst; eexists; split; reflexivity|]). contradiction.
 Qed.
 
+Lemma dt_parse_blank_err sz c1 c2 w fu : In (c1, c2) simple_types ->
+  dt_parse R (S (S fu)) sz 12 (c1 :: c2 :: 32 :: w) true 0 0 0 true = Err E_INVALID_DATA_TYPE.
+Proof.
+  intros Hin. destruct (dt_sizes_some sz _ _ Hin) as ([sf sm] & Ep & Emt).
+  cbn [dt_parse tl]. cbv beta iota delta [nth]. rewrite Emt, Ep.
+  change (0 >=? 12) with false. change (32 =? 91) with false. change (32 =? 44) with false. reflexivity.
+Qed.
+
 (* ADF_Read_All_Data into a buffer of mach_size(type) * count bytes, the type being the one ADF_Get_Data_Type names *)
 Lemma read_all_data_safe h t cnt : 0 < mach_size t -> cnt = prod_dims h -> 0 <= cnt -> cnt * mach_size t <= DATA_CAP ->
   0 <= nh_nchunks h -> safe (read_all_data R f h t (cnt * mach_size t)).
@@ -1293,9 +1301,7 @@ Proof.
   2:{ (* the type goes on after a blank: ADFI_evaluate_datatype refuses it *)
       destruct (upc_simple2 _ _ Hin) as (U1 & U2). cbn [map]. rewrite U1, U2. change (upc 32) with 32.
       destruct (read_file_header R f) as [h0| | | | | | | | |]; cbn [bind]; try exact HS.
-      destruct (dt_sizes_some (fh_sizes h0) _ _ Hin) as (pp & Ep & Emt).
-      change 40%nat with (S (S 38)). cbn [dt_parse tl]. cbv beta iota delta [nth]. rewrite Emt, Ep. destruct pp as [sf sm].
-      change (0 >=? 12) with false. change (32 =? 91) with false. change (32 =? 44) with false. exact I. }
+      change 40%nat with (S (S 38)). rewrite (dt_parse_blank_err _ _ _ _ _ Hin). exact I. }
   rewrite (upc_simple _ _ Hin).
   destruct (read_file_header R f) as [h0| | | | | | | | |] eqn:Eh; cbn [bind]; try exact HS.
   pose proof (read_file_header_sizes _ Eh) as Hsz.
